@@ -86,6 +86,8 @@ type lnk struct {
 	closedAt int64
 	eof      bool
 	ctr      byte
+	tcap     int // C10: bytes sent before a timeout toxic took effect on this link (-1: none in effect)
+	lcap     int // C11: upper bound of what a limit_data toxic lets through on this link (-1: none)
 }
 
 type source struct{ l *lnk }
@@ -198,9 +200,99 @@ func (e *Engine) Run(ops []string, res *report.Result) (fail *report.Failure) {
 				panic(r)
 			}
 		}()
+		if len(ops) > 0 && strings.HasPrefix(ops[0], "indep ") {
+			synctest.Test(e.T, func(t *testing.T) { fail = e.independence(ops, res) })
+			return
+		}
 		synctest.Test(e.T, func(t *testing.T) { fail = e.episode(ops, res) })
 	}()
 	return fail
+}
+
+// independence (C14, model-free): `indep N`: N connections are started at one instant through
+// a proxy whose only toxic (latency 1000 ms) has toxicity 0.5, with the random source giving
+// an independent sequence (not a scripted constant); one byte is sent on each. The toxic
+// applies to a connection as a whole or not at all - and not to all N or to none of them
+// (probability 2^(1-N) if the decisions are independent). The same after an update of the
+// toxicity on the established connections (every stub draws again).
+func (e *Engine) independence(ops []string, res *report.Result) *report.Failure {
+	n := 40
+	if w := strings.Fields(ops[0]); len(w) > 1 {
+		if k, err := strconv.Atoi(w[1]); err == nil && k > 1 {
+			n = k
+		}
+	}
+	vrand.Reset()
+	vrand.SetSeeded(0x5eed)
+	defer vrand.Reset()
+	t0 := time.Now()
+	logger := zerolog.Nop()
+	srv := toxiproxy.NewServer(toxiproxy.NewMetricsContainer(nil), logger)
+	proxy := toxiproxy.NewProxy(srv, "p", "127.0.0.1:0", "127.0.0.1:9")
+	if _, err := proxy.Toxics.AddToxicJson(strings.NewReader(`{"name":"t","type":"latency","stream":"upstream","toxicity":0.5,"attributes":{"latency":1000}}`)); err != nil {
+		return nil
+	}
+	var links []*lnk
+	for k := 0; k < n; k++ {
+		l := &lnk{name: fmt.Sprintf("c%d", k), dir: "up", t0: t0, feed: make(chan []byte, 16), gate: make(chan struct{}), ready: true, ctr: 1, tcap: -1, lcap: -1}
+		close(l.gate)
+		links = append(links, l)
+		proxy.Toxics.StartLink(srv, l.name, source{l}, sink{l}, stream.Upstream)
+	}
+	defer func() {
+		for _, l := range links {
+			close(l.feed)
+		}
+		synctest.Wait()
+		time.Sleep(5 * time.Second)
+		synctest.Wait()
+	}()
+	round := func(tag string) *report.Failure {
+		base := make([]int, n)
+		for k, l := range links {
+			l.mu.Lock()
+			base[k] = len(l.all)
+			l.mu.Unlock()
+			l.feed <- []byte{byte(k + 1)}
+		}
+		synctest.Wait()
+		time.Sleep(10 * time.Millisecond)
+		synctest.Wait()
+		applied := 0
+		var pat []byte
+		for k, l := range links {
+			l.mu.Lock()
+			got := len(l.all) - base[k]
+			l.mu.Unlock()
+			if got == 0 {
+				applied++
+				pat = append(pat, '1')
+			} else {
+				pat = append(pat, '0')
+			}
+		}
+		time.Sleep(2 * time.Second)
+		synctest.Wait()
+		res.Count(fmt.Sprintf("indep:%s:applied=%d/%d", tag, applied, n))
+		if applied == 0 || applied == n {
+			return &report.Failure{Kind: "oracle", Property: "C14", Ops: append([]string(nil), ops...), At: 0,
+				Model: "some of the connections affected, some not (independent decisions with probability 0.5)",
+				Impl:  fmt.Sprintf("%s: affected %d of %d: %s", tag, applied, n, pat),
+				What:  fmt.Sprintf("with toxicity 0.5, %d connections %s were all treated alike: the toxic's per-connection decisions are not independent", n, tag),
+				Sig:   "e3:C14:not-independent"}
+		}
+		return nil
+	}
+	if f := round("started at one instant"); f != nil {
+		return f
+	}
+	proxy.Toxics.UpdateToxicJson("t", strings.NewReader(`{"toxicity":0.5,"attributes":{"latency":1000}}`))
+	synctest.Wait()
+	if f := round("after an update of the toxic on the established connections"); f != nil {
+		return f
+	}
+	res.Episodes++
+	return nil
 }
 
 func (e *Engine) episode(ops []string, res *report.Result) *report.Failure {
@@ -225,6 +317,14 @@ func (e *Engine) episode(ops []string, res *report.Result) *report.Failure {
 	probeSrc := map[string][]string{}
 	toxDir := map[string]string{}
 	toxType := map[string]string{}
+	allowBlock := false
+	// model-free oracles of C10 / C11: which timeout / limit_data toxics are in effect (toxicity 1),
+	// and per link how much may still come out (see capOracle)
+	toxOn := map[string]bool{}  // name -> currently applied with toxicity 1
+	limitOf := map[string]int{} // limit_data name -> limit
+	limBase := map[string]int{} // link name -> bytes sent before its limit_data toxic was added
+	c10Off := map[string]bool{} // direction -> a timeout toxic was switched off by an update: stream may resume
+	c11Off := map[string]bool{} // direction -> limit_data removed / switched off / several of them
 	var result *report.Failure
 	var shape []string
 	lastPcs := ""
@@ -250,10 +350,35 @@ func (e *Engine) episode(ops []string, res *report.Result) *report.Failure {
 		line := op
 		var exec func()
 		switch w[0] {
+		case "allowblock":
+			// harness only (directed episodes): API calls that have to wait for a stage to finish
+			// its hand-over are executed, not skipped. The episode must not start or end a link
+			// while such a call is waiting (nothing else may need the collection mutex).
+			allowBlock = true
+			continue
 		case "newlink":
 			exec = func() {
-				l := &lnk{name: w[1], dir: w[2], t0: t0, feed: make(chan []byte, 4096), gate: make(chan struct{}), ready: true, ctr: byte(1 + 40*len(links))}
+				l := &lnk{name: w[1], dir: w[2], t0: t0, feed: make(chan []byte, 4096), gate: make(chan struct{}), ready: true, ctr: byte(1 + 40*len(links)), tcap: -1, lcap: -1}
 				close(l.gate)
+				for n, on := range toxOn {
+					if !on || toxDir[n] != w[2] {
+						continue
+					}
+					if toxType[n] == "timeout" {
+						l.tcap = 0
+					}
+					if toxType[n] == "limit_data" {
+						c := limitOf[n]
+						if c < 0 {
+							c = 0
+						}
+						if l.lcap >= 0 {
+							c11Off[w[2]] = true
+						}
+						l.lcap = c
+						limBase[w[1]] = 0
+					}
+				}
 				links[w[1]] = l
 				order = append(order, w[1])
 				d := stream.Upstream
@@ -319,6 +444,33 @@ func (e *Engine) episode(ops []string, res *report.Result) *report.Failure {
 				if w[3] == "limit_data" {
 					everLimit[w[1]] = true
 				}
+				toxOn[w[2]] = w[7] == "1"
+				if w[7] == "1" && w[3] == "timeout" {
+					for _, l := range links {
+						if l.dir == w[1] && (l.tcap < 0 || len(l.sent) < l.tcap) {
+							l.tcap = len(l.sent)
+						}
+					}
+				}
+				if w[3] == "limit_data" {
+					limitOf[w[2]] = int(a1)
+					if w[7] == "1" {
+						for _, l := range links {
+							if l.dir != w[1] {
+								continue
+							}
+							if l.lcap >= 0 {
+								c11Off[w[1]] = true
+							}
+							c := int(a1)
+							if c < 0 {
+								c = 0
+							}
+							limBase[l.name] = len(l.sent)
+							l.lcap = len(l.sent) + c
+						}
+					}
+				}
 				apiBusy.Add(1)
 				go func() {
 					proxy.Toxics.AddToxicJson(strings.NewReader(body))
@@ -331,6 +483,44 @@ func (e *Engine) episode(ops []string, res *report.Result) *report.Failure {
 			a3, _ := strconv.ParseInt(w[5], 10, 64)
 			body := fmt.Sprintf(`{"toxicity":%s,"attributes":%s}`, w[6], attrsJSON(w[2], a1, a2, a3))
 			exec = func() {
+				d := toxDir[w[1]]
+				was := toxOn[w[1]]
+				toxOn[w[1]] = w[6] == "1"
+				switch toxType[w[1]] {
+				case "timeout":
+					if w[6] != "1" {
+						c10Off[d] = true
+					} else if !was {
+						for _, l := range links {
+							if l.dir == d && (l.tcap < 0 || len(l.sent) < l.tcap) {
+								l.tcap = len(l.sent)
+							}
+						}
+					}
+				case "limit_data":
+					limitOf[w[1]] = int(a1)
+					if w[6] != "1" || !was {
+						c11Off[d] = true
+					} else {
+						for _, l := range links {
+							if l.dir != d || l.lcap < 0 {
+								continue
+							}
+							// what has passed the toxic so far is at most the old allowance and at most
+							// what was sent since it was added; the update allows max(that, new limit)
+							base := limBase[l.name]
+							passed := l.lcap - base
+							if len(l.sent)-base < passed {
+								passed = len(l.sent) - base
+							}
+							c := int(a1)
+							if c < passed {
+								c = passed
+							}
+							l.lcap = base + c
+						}
+					}
+				}
 				apiBusy.Add(1)
 				go func() {
 					proxy.Toxics.UpdateToxicJson(w[1], strings.NewReader(body))
@@ -339,6 +529,10 @@ func (e *Engine) episode(ops []string, res *report.Result) *report.Failure {
 			}
 		case "del":
 			exec = func() {
+				if toxType[w[1]] == "limit_data" {
+					c11Off[toxDir[w[1]]] = true
+				}
+				delete(toxOn, w[1])
 				apiBusy.Add(1)
 				go func() {
 					proxy.Toxics.RemoveToxic(context.Background(), w[1])
@@ -348,6 +542,12 @@ func (e *Engine) episode(ops []string, res *report.Result) *report.Failure {
 		case "reset":
 			line = "resettoxics"
 			exec = func() {
+				for n := range toxOn {
+					if toxType[n] == "limit_data" {
+						c11Off[toxDir[n]] = true
+					}
+					delete(toxOn, n)
+				}
 				apiBusy.Add(1)
 				go func() {
 					proxy.Toxics.ResetToxics(context.Background())
@@ -424,7 +624,7 @@ func (e *Engine) episode(ops []string, res *report.Result) *report.Failure {
 			res.Count("skipped:no-such-link")
 			continue
 		}
-		if w[0] == "add" || w[0] == "upd" || w[0] == "del" || w[0] == "reset" {
+		if (w[0] == "add" || w[0] == "upd" || w[0] == "del" || w[0] == "reset") && !allowBlock {
 			// An API call that cannot complete at once (it waits for a blocked receiver or
 			// for a timer) keeps the collection mutex; a goroutine then waiting for that
 			// mutex is not "durably blocked" for synctest and virtual time would stop.
@@ -538,6 +738,10 @@ func (e *Engine) episode(ops []string, res *report.Result) *report.Failure {
 				result = of
 				break
 			}
+			if of := capOracle(fail, len(ops)-1, l, got, c10Off[l.dir], c11Off[l.dir]); of != nil {
+				result = of
+				break
+			}
 		}
 	}
 	if (result == nil || e.OracleOnly) && apiBusy.Load() == 0 {
@@ -582,6 +786,10 @@ func (e *Engine) episode(ops []string, res *report.Result) *report.Failure {
 			got := append([]byte(nil), l.all...)
 			closed := l.closed
 			l.mu.Unlock()
+			if of := capOracle(fail, len(ops)-1, l, got, c10Off[l.dir], c11Off[l.dir]); of != nil && (result == nil || e.OracleOnly) {
+				result = of
+				break
+			}
 			if !everTimeout[l.dir] && !everLimit[l.dir] && !failed[l.name] && apiBusy.Load() == 0 {
 				if string(got) != string(l.sent) || !closed {
 					prop := "C02"
@@ -637,6 +845,22 @@ func isSubsequence(sub, full []byte) bool {
 		}
 	}
 	return j == len(sub)
+}
+
+// capOracle (C10, C11; model-free): nothing sent while a timeout toxic (toxicity 1) was in effect
+// on the link is ever delivered - not while it is there and not after it was removed (removal
+// closes the connection); a limit_data toxic (toxicity 1) never lets more through than its limit
+// allows, counted per connection across updates of the limit.
+func capOracle(fail func(int, string, string, string, string, string, string) *report.Failure, at int, l *lnk, got []byte, c10Off, c11Off bool) *report.Failure {
+	if l.tcap >= 0 && !c10Off && len(got) > l.tcap {
+		return fail(at, "oracle", "C10", fmt.Sprintf("at most the %d bytes sent before the timeout toxic took effect", l.tcap), fmt.Sprintf("link %s: got %d bytes: %s", l.name, len(got), hx(got)),
+			"bytes sent while a timeout toxic was in effect on the connection were delivered (during the timeout or after its removal)", "e3:C10:timeout-leaks")
+	}
+	if l.lcap >= 0 && !c11Off && len(got) > l.lcap {
+		return fail(at, "oracle", "C11", fmt.Sprintf("at most %d bytes", l.lcap), fmt.Sprintf("link %s: got %d bytes", l.name, len(got)),
+			"a connection with a limit_data toxic received more than the limit allows (the budget is per connection and carries over updates of the limit)", "e3:C11:limit-exceeded")
+	}
+	return nil
 }
 
 // streamOracle: what a sink received is an in-order part of what its source sent, and a
